@@ -3,7 +3,7 @@
     own-pointer fix-up, upper-level link, re-check) / softDelete / NewLevel / the iterator, replayed
     step by step against the real code. *)
 From Coq Require Import List Arith ZArith Lia Bool Sorting.Sorted.
-From NV Require Import Base.Sched Skip.Model Skip.Stmts Skip.Proofs Skip.IterStmts Skip.LinStmts Skip.LinProofs.
+From NV Require Import Base.Sched Skip.Model Skip.Stmts Skip.Proofs Skip.IterStmts Skip.LinStmts Skip.LinProofs Skip.QuiescentScanStmts Skip.QuiescentScanProofs.
 Import ListNotations.
 Open Scope Z_scope.
 
@@ -91,3 +91,10 @@ Print Assumptions C13_lin_lookup.
 
 (** non-vacuity: a failed Insert, a successful Delete and a Lookup returning true overlapping on one key *)
 Example C13_lin_nonvacuous := lin_nonvacuous.
+
+(** "After quiescence an iterator yields exactly the resulting set in order": the programs run under any
+    schedule until all of them have finished; a further goroutine then runs SeekFirst and m Nexts: its
+    results are the first m+1 keys of the set in ascending order, then "exhausted". *)
+Theorem C13_quiescent_scan : stmt_quiescent_scan.
+Proof. exact quiescent_scan. Qed.
+Print Assumptions C13_quiescent_scan.
